@@ -777,3 +777,191 @@ class CopyToParent(Contract):
 
 
 CONTRACTS = CONTRACTS + [GetAttributesStub, ClearArraysStub, CopyToParent]
+
+
+class GroupSubtreeCopy(Contract):
+    """Copying a group reproduces its whole subtree -- as it stood when the copy was requested -- under
+    any target parent of the same or another workspace, the group itself and one of its own subgroups
+    included, and creates nothing else; the source subtree is unchanged (apart from the new child when
+    the target lies inside it)."""
+    target = "geoh5py/groups/base.py::Group.copy"
+    variant = "subtree-native"
+    symbolic = False
+    has_native = True
+    props = ("C12", "C13")
+    bounded_scope = ("a group holding {points with 2 data and a property group, a curve, a subgroup holding {points with data, an empty subgroup}}; copy() and copy_from_extent(box keeping everything) "
+                     "into {its own parent, another group, another workspace, a group of another workspace, the group itself, its own subgroup}; with and without children; the copy's tree (classes, names, "
+                     "data values, property group members by name) equals the source's tree at request time; entity count of the target workspace grows by exactly the size of the copied tree "
+                     "(exhaustive over the listed combinations)")
+
+    def native_cases(self, tier, rng):
+        for op in ("copy", "extent"):
+            for target in ("same-parent", "another-group", "other-workspace", "group-of-other-workspace", "itself", "own-subgroup"):
+                for children in (True, False):
+                    yield {"op": op, "target": target, "copy_children": children}
+
+    @classmethod
+    def _tree(cls, ent, skip=()):
+        kids = []
+        for c in getattr(ent, "children", []):
+            if any(c is s for s in skip):
+                continue
+            if hasattr(c, "values") and hasattr(c, "association"):
+                v = c.values
+                kids.append(("data", type(c).__name__, c.name, None if v is None else repr(np.asarray(v).tolist())))
+            elif hasattr(c, "properties") and not hasattr(c, "children"):
+                continue
+            else:
+                kids.append(cls._tree(c, skip))
+        pgs = []
+        for pg in (getattr(ent, "property_groups", None) or []):
+            pgs.append((pg.name, sorted(ent.get_entity(u)[0].name for u in (pg.properties or []))))
+        verts = getattr(ent, "vertices", None)
+        return (type(ent).__name__, ent.name if not getattr(ent, "_is_copy_root", False) else "<root>", None if verts is None else repr(np.asarray(verts).tolist()), sorted(pgs), sorted(kids, key=repr))
+
+    @staticmethod
+    def _size(tree):
+        return 1 + sum(1 if k[0] == "data" else GroupSubtreeCopy._size(k) for k in tree[4])
+
+    def native_check(self, case):
+        import sys
+
+        from geoh5py.groups import ContainerGroup
+        from geoh5py.objects import Curve, Points
+        from geoh5py.workspace import Workspace
+
+        d = tempfile.mkdtemp()
+        limit = sys.getrecursionlimit()
+        try:
+            with Workspace.create(os.path.join(d, "src.geoh5")) as ws, Workspace.create(os.path.join(d, "dst.geoh5")) as other:
+                top = ContainerGroup.create(ws, name="top")
+                elsewhere = ContainerGroup.create(ws, name="elsewhere")
+                g = ContainerGroup.create(ws, name="g", parent=top)
+                v = np.c_[np.arange(4.0), np.arange(4.0) * 2, np.zeros(4)]
+                p = Points.create(ws, name="p", vertices=v, parent=g)
+                dat = p.add_data({"a": {"values": np.arange(4.0)}, "b": {"values": np.arange(4.0) + 10}})
+                p.add_data_to_group(dat, "pg")
+                Curve.create(ws, name="c", vertices=v + 1.0, parent=g)
+                sub = ContainerGroup.create(ws, name="sub", parent=g)
+                q = Points.create(ws, name="q", vertices=v + 2.0, parent=sub)
+                q.add_data({"z": {"values": np.arange(4.0) * 3}})
+                ContainerGroup.create(ws, name="hollow", parent=sub)
+                far = ContainerGroup.create(other, name="far")
+                parent = {"same-parent": None, "another-group": elsewhere, "other-workspace": other, "group-of-other-workspace": far, "itself": g, "own-subgroup": sub}[case["target"]]
+                want = self._tree(g)
+                target_ws = other if case["target"] in ("other-workspace", "group-of-other-workspace") else ws
+                count = lambda w: len(w.groups) + len(w.objects) + len(w.data)
+                n0 = count(target_ws)
+                sys.setrecursionlimit(400)  # a copy that feeds on itself is stopped early
+                try:
+                    if case["op"] == "copy":
+                        new = g.copy(parent=parent, copy_children=case["copy_children"])
+                    else:
+                        new = g.copy_from_extent(np.array([[-100.0, -100.0], [100.0, 100.0]]), parent=parent, copy_children=case["copy_children"])
+                except RecursionError:
+                    return f"{self._what(case)} does not end: the copy is copied into itself over and over (RecursionError; the workspace now holds {count(target_ws)} entities instead of {n0})"
+                finally:
+                    sys.setrecursionlimit(limit)
+                if new is None:
+                    if case["op"] == "extent" and not case["copy_children"]:
+                        pass
+                    return f"{self._what(case)} returned nothing"
+                got = self._tree(new)
+                exp = want if case["copy_children"] else (want[0], want[1], want[2], want[3], [])
+                if case["op"] == "extent":
+                    # a group in which nothing qualifies (an empty one) is not reproduced by a clip
+
+                    def prune(t):
+                        kids = [k if k[0] == "data" else prune(k) for k in t[4]]
+                        kids = [k for k in kids if k is not None]
+                        return None if (t[0].endswith("Group") and not kids and t is not exp) else (t[0], t[1], t[2], t[3], kids)
+
+                    exp = prune(exp)
+                if got != exp:
+                    return f"{self._what(case)}: the copy's tree is {got} but the group's tree at the time of the request was {exp}"
+                grown = count(target_ws) - n0
+                if grown != self._size(exp):
+                    return f"{self._what(case)} created {grown} entities; the copied tree has {self._size(exp)}"
+                if self._tree(g, skip=(new,)) != want:
+                    return f"{self._what(case)} changed the source subtree"
+            return None
+        finally:
+            sys.setrecursionlimit(limit)
+            shutil.rmtree(d, ignore_errors=True)
+
+    @staticmethod
+    def _what(case):
+        return f"{'copy' if case['op'] == 'copy' else 'copy_from_extent'}(copy_children={case['copy_children']}) of a group into {case['target']}"
+
+
+CONTRACTS = CONTRACTS + [GroupSubtreeCopy]
+
+
+class GroupCopyChildren(Contract):
+    """Group.copy: the group itself is copied without children through the target parent's workspace;
+    then each child present at the request is copied under the new group with the caller's options --
+    also when the new group lands in the group's own child list (parent=self); without
+    copy_children no child is copied."""
+    target = "geoh5py/groups/base.py::Group.copy"
+    props = ("C12",)
+    lenient = True
+
+    def cases(self):
+        return [(where, kids) for where in ("elsewhere", "own-parent", "the-group-itself") for kids in (True, False)]
+
+    def setup(self, ctx):
+        from geoh5py.groups import Group
+
+        where, kids = ctx.case
+        me = Opaque("self", cls=Group)
+        new_group = Opaque("new-group")
+        ctx.path.assume(~new_group.none_var())
+        clear, mask = Opaque("clear_cache"), Opaque("mask")
+
+        def child(tag):
+            ch = Opaque(tag)
+            ch.attrs["copy"] = Opaque(tag + ".copy")
+            ch.attrs["copy"].maybe_method = lambda I, a, kw, _t=tag: (I.event("child.copy", child=_t, kw=dict(kw)), Opaque(_t + "-copy"))[1]
+            return ch
+
+        me.attrs["children"] = PList([child("child-0"), child("child-1")])
+        own_parent = Opaque("own-parent")
+        me.attrs["parent"] = own_parent
+        target = {"elsewhere": Opaque("target"), "own-parent": None, "the-group-itself": me}[where]
+        if where == "elsewhere":
+            ctx.path.assume(~target.none_var())
+        tws = Opaque("target-workspace")
+
+        def ctp(I, a, kw):
+            I.event("copy_to_parent", entity=a[0], parent=a[1], kw=dict(kw))
+            if where == "the-group-itself":
+                nk = child("the-new-group")
+                me.attrs["children"].items.append(nk)
+            return new_group
+
+        tws.attrs["copy_to_parent"] = Opaque("copy_to_parent")
+        tws.attrs["copy_to_parent"].maybe_method = ctp
+        for holder in (own_parent, me) + ((target,) if target is not None and target is not me else ()):
+            holder.attrs["workspace"] = tws
+        ctx.env.update(me=me, new_group=new_group, clear=clear, mask=mask, tgt=target if target is not None else own_parent)
+        return [me], {"parent": target, "copy_children": kids, "clear_cache": clear, "mask": mask}
+
+    def post(self, ctx, result):
+        e = ctx.env
+        where, kids = ctx.case
+        ev = ctx.path.events
+        made = [p for k, p in ev if k == "copy_to_parent"]
+        ctx.oblige("the-group-is-copied-once-without-children-under-the-requested-parent",
+                   len(made) == 1 and made[0]["entity"] is e["me"] and made[0]["parent"] is e["tgt"] and made[0]["kw"].get("copy_children") is False and result is e["new_group"],
+                   note=f"{len(made)} copies; parent {made[0]['parent'] if made else None!r}; options {made[0]['kw'] if made else None}; result {result!r}")
+        cc = [p for k, p in ev if k == "child.copy"]
+        if not kids:
+            ctx.oblige("without-copy_children-no-child-is-copied", not cc)
+            return
+        ctx.oblige("the-children-copied-are-those-present-at-the-request", [p["child"] for p in cc] == ["child-0", "child-1"],
+                   note=f"copied: {[p['child'] for p in cc]} -- the new group was found among the children to copy (it is then copied into itself, and that copy into itself ...)")
+        ctx.oblige("children-go-under-the-new-group-with-the-callers-options",
+                   all(p["kw"].get("parent") is e["new_group"] and p["kw"].get("copy_children") is True and p["kw"].get("clear_cache") is e["clear"] and p["kw"].get("mask") is e["mask"] for p in cc))
+
+
+CONTRACTS = CONTRACTS + [GroupCopyChildren]
